@@ -1191,7 +1191,7 @@ func TestVerifC07Codec(t *testing.T) {
 	defer c.Finish()
 	c.Rule("states = (router, player, pending actions) reached along PRNG-driven protocol-valid event streams (7 voters, 2 of them possibly equivocating, proposal-votes with payloads, pipelined payloads, bundles, timeouts, fast timeouts, round interruptions, checkpoints, verification replies, own votes looped back) into a real rootRouter+player; checked at every persist point (an attest action pending) and at PRNG-chosen other points: bytewise idempotence over msgp/reflection codec pairs and survival of every field outside the not-persisted list; distinct = distinct state-shape classes (period, step, napping, numbers of round/period/step routers, votes, equivocators, assemblers, pipelined payloads, pending tails, pending actions)")
 	c.Assume("votes are struct-level (chosen weights, filler signatures): player and router do not verify cryptography; the not-persisted list c07NotPersisted was established on the unchanged tree")
-	nstreams := c.N(24, 500)
+	nstreams := c.N(24, 1000)
 	c07Parallel(nstreams, func(s int) {
 		if c.Violations() > 20 {
 			return
@@ -1214,7 +1214,7 @@ func TestVerifC07Codec(t *testing.T) {
 		}, func() *c07Restrict { return none }, nil)
 		c.Count("streams", 1)
 	})
-	c.Require("states", int64(c.N(1200, 30000)))
+	c.Require("states", int64(c.N(1200, 60000)))
 	c.Require("states_period_gt0", 100)
 	c.Require("states_with_equivocation_records", 100)
 	c.Require("states_with_pipelined_next_round", 100)
@@ -1244,7 +1244,7 @@ func TestVerifC07Behaviour(t *testing.T) {
 	defer c.Finish()
 	c.Rule("same streams as part codec (other PRNG stream); at persist points and PRNG-chosen points the state is encoded and restored twice (msgp decode, reflection decode); the restored machines then receive the next 5-80 events of the uncrashed machine's stream; after every event actions (type, ComparableStr, encoding) and the encoded state must equal the uncrashed machine's; distinct = distinct state-shape classes at the snapshot")
 	c.Assume("while a comparison runs the stream has no proposal-vote whose handling depends on the deliberately unpersisted late-credential state, and no verification reply to a request older than the snapshot; streams stay below 40 rounds (credential history never full)")
-	nstreams := c.N(50, 900)
+	nstreams := c.N(50, 2000)
 	c07Parallel(nstreams, func(s int) {
 		if c.Violations() > 20 {
 			return
@@ -1346,9 +1346,9 @@ func TestVerifC07Behaviour(t *testing.T) {
 		}, func(e event, desc string, acts []action, i int) { lastEvent = e })
 		c.Count("streams", 1)
 	})
-	c.Require("snapshots", int64(c.N(400, 8000)))
-	c.Require("events_compared", int64(c.N(10000, 200000)))
-	c.Require("continuations_completed", int64(c.N(300, 6000)))
+	c.Require("snapshots", int64(c.N(400, 16000)))
+	c.Require("events_compared", int64(c.N(10000, 1000000)))
+	c.Require("continuations_completed", int64(c.N(300, 15000)))
 	c.Require("states_period_gt0", 30)
 	c.Require("states_with_equivocation_records", 30)
 	c.Require("states_with_pipelined_next_round", 30)
